@@ -131,6 +131,14 @@ def rules(ctx):
     for o in ctx.obligations[before:]:
         o.id = o.id.replace("C01/R3.", "C01/R7.")
     flow_arcs(ctx)
+    # the insertion / removal decisions rest on the position walks and the gap test (shared with C12)
+    from .C12 import scans_are_loops, gap_guard, gap_operands
+    before = len(ctx.obligations)
+    scans_are_loops(ctx)
+    gap_operands(ctx)
+    gap_guard(ctx)
+    for o in ctx.obligations[before:]:
+        o.id = o.id.replace("C01/R", "C01/R8.positions.R")
     from . import order
     order.pair_order(ctx, "R2", only={N("can_reach")})
     # travel times used by the timing rule are the input's own matrix entries (shared with C17)
